@@ -24,6 +24,7 @@ def run(ctx, report):
     report.section("labels", labels, ctx, report)
     report.section("DFXP fallback", dfxp_fallback, ctx, report)
     report.section("WebVTT lang option", webvtt_lang, ctx, report)
+    report.section("reader lang option", reader_lang, ctx, report)
     report.section("SAMI neighbours", sami_neighbours, ctx, report)
     report.section("argument order", argument_order, ctx, report)
     report.structural_section("label stores (shape)", "R-DOC-LANGS on the folded documents of the markup writers (every language under its "
@@ -255,6 +256,56 @@ def sami_neighbours(ctx, report):
                  "a new sync goes right after the LAST earlier sync, else right before the FIRST later one",
                  {"documents_folded": n, "mismatches": bad[:3],
                   "why": "any other position puts a sync out of time order: players show the cue at the wrong moment"}, "5")
+
+
+def reader_lang(ctx, report):
+    """the lang= option of the single-language readers, folded: whatever the document says about itself (header metadata,
+    a cue that reads 'Language: de'), the returned caption set has exactly one language - the one named, or the default"""
+    from ..core.constfold import Folder, Stub, FoldRaise
+    from .foldutil import captions_by_language
+    F = Folder(ctx.index)
+    F.object_classes = "*"
+    docs = {
+        ("pycaption/webvtt.py", "WebVTTReader"): [
+            "WEBVTT\n\n00:01.000 --> 00:02.000\nhello\n",
+            "WEBVTT\nKind: captions\nLanguage: en\n\n00:01.000 --> 00:02.000\nhello\n\n00:03.000 --> 00:04.000\nLanguage: de\n",
+            "WEBVTT - Language: es\n\nNOTE Language: it\n\n1\n00:01.000 --> 00:02.000\nhola\n"],
+        ("pycaption/srt.py", "SRTReader"): [
+            "1\n00:00:01,000 --> 00:00:02,000\nhello\n", "1\n00:00:01,000 --> 00:00:02,000\nLanguage: de\n\n2\n00:00:03,000 --> 00:00:04,000\nfr\n"],
+        ("pycaption/microdvd.py", "MicroDVDReader"): ["{0}{0}25\n{25}{50}hello\n{75}{100}Language: de\n"],
+    }
+    bad = []
+    n = 0
+    fn0 = None
+    for (path, name), texts in docs.items():
+        cls = ctx.index.get_class(path, name)
+        read, init = cls.find_method("read"), cls.find_method("__init__")
+        fn0 = fn0 or read
+        report.covered(read)
+        default = {}
+        for doc in texts:
+            for how, args, kw, want in (("default", [], {}, None), ("keyword", [], {"lang": "fr"}, "fr"), ("positional", ["pt-BR"], {}, "pt-BR"),
+                                        ("keyword", [], {"lang": "en"}, "en")):
+                n += 1
+                me = Stub("reader", {}, cls=cls)
+                try:
+                    if init is not None:
+                        F.call_function(init, [], {}, self_value=me)
+                    r = F.call_function(read, [doc] + args, dict(kw), self_value=me)
+                    langs = list(captions_by_language(r, F, what=f"{name}.read"))
+                except FoldRaise as e:
+                    bad.append({"reader": name, "document": doc[:80], "lang": want, "raises": e.exc_name})
+                    continue
+                except AnalysisError as e:
+                    raise AnalysisError(f"{name}.read cannot be folded with a lang option: {e}")
+                if want is None:
+                    # (the reader's own default: one language, the same whatever the document holds)
+                    want = default.setdefault(name, langs[0] if len(langs) == 1 and isinstance(langs[0], str) and langs[0] else None)
+                if langs != [want]:
+                    bad.append({"reader": name, "document": doc[:80], "lang_option": f"{how}: {want}", "languages_returned": langs})
+    report.check(not bad, "R-DOC-LANGS", fn0, f"WebVTT, SRT and MicroDVD readers on {n} folded reads (documents with and without "
+                 "language-looking lines; lang= omitted, by keyword, by position): the caption set has exactly the language asked "
+                 "for, or - when none is asked for - the reader's one default whatever the document holds", {"reads": n, "mismatches": bad[:3]}, "4")
 
 
 def argument_order(ctx, report):
